@@ -8,6 +8,7 @@
 // cast / subscript / qualified operands on either side of every operator; negative literals after every operator;
 // parenthesised operands (also in the middle of every operator pair); line breaks between an operator and a unary minus;
 // IN with one element.
+// Also: [NOT] IN lists of one element inside larger expressions.
 include!("verif_grid_common.rs");
 include!("verif_grid_qcommon.rs");
 
@@ -125,6 +126,15 @@ fn verif_grid() {
             g.case(&format!("line-break-{}-{}", li, i), move || same(&expr, &reference));
         }
     }
+    for (i, (expr, reference)) in [("x NOT IN (5)", "(x NOT IN (5))"), ("y OR x + 1 NOT IN (a * 2)", "(y OR ((x + 1) NOT IN ((a * 2))))"), ("x IN (5) AND y", "((x IN (5)) AND y)"),
+                                   ("NOT x NOT IN (1)", "(NOT (x NOT IN (1)))"), ("x NOT IN (-1)", "(x NOT IN ((-1)))"), ("x IN ((1))", "(x IN (1))"), ("x NOT IN (1, 2) OR y", "((x NOT IN (1, 2)) OR y)")].iter().enumerate() {
+        g.case(&format!("in-lists-{}", i), move || same(expr, reference));
+    }
+    g.case("not-in-one-element-means-not-equals", || {
+        let input = ["k=a v=1", "k=b v=2", "k=c v=", "k=d v=1"];
+        let (x, y) = (q(T, "SELECT k FROM t WHERE v NOT IN (1)", &input), q(T, "SELECT k FROM t WHERE v != 1", &input));
+        if x == y && x.lines().map(|l| l.len()) == Some(1) { Ok(()) } else { Err(format!("WHERE v NOT IN (1) gives {:?}, WHERE v != 1 gives {:?}", x, y)) }
+    });
     g.case("in-one-element", || match parsing::parse("SELECT a FROM t WHERE a IN (1)") { Ok(_) => Ok(()), Err(e) => Err(format!("IN with a list of one element is rejected: {}", e)) });
     g.case("in-one-element-means-equals", || {
         let input = ["k=a v=1", "k=b v=2", "k=c v=", "k=d v=1"];
